@@ -71,7 +71,7 @@ GATES = {
     ],
     "exhaustive-doubles": {"quick": [], "thorough": ["subst2:exhaustive-address"]},
     "decode-histories": ["history:decode-again-after-caller-edited-result"],
-    "second-strings-for-one-script": ["non-address-base58:other-version", "non-address-base58:payload-19", "non-address-base58:payload-21",
+    "second-strings-for-one-script": ["a2s:version-x-template-length", "non-address-base58:other-version", "non-address-base58:payload-19", "non-address-base58:payload-21",
                                       "lenient-probe:non-zero-padding", "lenient-probe:over-long-padding", "lenient-probe:regtest-separator"],
 }
 
@@ -394,7 +394,12 @@ def _post_addr_to_script(label, s, got_script, out, fa_bcrt):
     sc, kind = _ref_address(s)
     if sc is not None:
         if kind is None:
+            # a valid segwit address of a program that is none of the five templates (v1 with 20 bytes, v2+ ...): whether the
+            # parser accepts it is only observed, but a script it returns has to be THAT program's script - anything else
+            # gives two addresses to one script
             ctx.count("observed:%s:non-template-witness-program:%s" % (label, "accepted" if out[0] == "ok" else "rejected"))
+            if out[0] == "ok" and got_script(out[1]) != sc:
+                ctx.violation(label + "-wrong-script:non-template-program", f"got {got_script(out[1]).hex()} for the address of {sc.hex()}", case)
             return NotImplemented
         if s != s.lower() and te.segwit_check(s)[1] == "ok":
             return NotImplemented
@@ -618,6 +623,14 @@ def bech32_grid(ctx, rng, idx, n, p):
             _try(bech32.group_32, prog)
             if o[0] == "ok":
                 _state["tag"] = None
+                if ln in (20, 32) and (i + rep) % 3 == 0:
+                    # every witness version with a template-sized program through the two address parsers (the contracts decide)
+                    from buidl import script as _scr
+                    from buidl.tx import TxOut as _TO
+
+                    ctx.count("a2s:version-x-template-length")
+                    _try(_scr.address_to_script_pubkey, o[1])
+                    _try(_TO.to_address, o[1], 1)
                 d = _try(bech32.decode_bech32, o[1])
                 ctx.monitor("driver.bech32-roundtrip")
                 standard = ver != 0 or ln in (20, 32)
